@@ -353,3 +353,105 @@ theorem inv_reachable {cfg : Cfg} {s : State} (h : Reachable cfg s) : Inv s := b
   | step a _ hs ih => exact inv_step a ih hs
 
 end Corro.WritePool
+
+namespace Corro.WritePool
+
+/-! ### the biased select -/
+
+theorem firstNonEmpty_std (q : Prio → List Nat) (p0 : Prio)
+    (h : firstNonEmpty q [.priority, .normal, .low] = some p0) :
+    q p0 ≠ [] ∧ (q .priority ≠ [] → p0 = .priority) ∧
+    (q .priority = [] → q .normal ≠ [] → p0 = .normal) ∧
+    (q .priority = [] → q .normal = [] → p0 = .low) := by
+  simp only [firstNonEmpty] at h
+  by_cases h1 : q .priority = []
+  · by_cases h2 : q .normal = []
+    · by_cases h3 : q .low = []
+      · simp [h1, h2, h3] at h
+      · simp [h1, h2, h3] at h; subst h; simp [h1, h2, h3]
+    · simp [h1, h2] at h; subst h; simp [h1, h2]
+  · simp [h1] at h; subst h; simp [h1]
+
+theorem firstNonEmpty_std_some (q : Prio → List Nat) (p : Prio) (h : q p ≠ []) :
+    ∃ p0, firstNonEmpty q [.priority, .normal, .low] = some p0 := by
+  simp only [firstNonEmpty]
+  by_cases h1 : q .priority = []
+  · by_cases h2 : q .normal = []
+    · by_cases h3 : q .low = []
+      · cases p <;> simp_all
+      · exact ⟨.low, by simp [h1, h2, h3]⟩
+    · exact ⟨.normal, by simp [h1, h2]⟩
+  · exact ⟨.priority, by simp [h1]⟩
+
+/-- `dispatch p` is enabled whenever the dispatcher is idle and the biased select yields `p` -/
+theorem dispatch_enabled {cfg : Cfg} (hb : cfg.biased = true) {s : State} {p : Prio}
+    (hd : s.disp = none) (hf : firstNonEmpty s.q cfg.order = some p) (hne : s.q p ≠ []) :
+    ∃ s', step cfg s (.dispatch p) = some s' := by
+  simp only [step, hd, selectable, hb, hf, Option.isNone_none, if_true, beq_self_eq_true,
+    Bool.and_self]
+  cases hq : s.q p with
+  | nil => exact absurd hq hne
+  | cons r rest =>
+    simp only
+    split
+    · exact ⟨_, rfl⟩
+    · exact ⟨_, rfl⟩
+
+/-! ### a measure that every system step decreases -/
+
+def phaseRank : Phase → Nat
+  | .granted => 5
+  | .hasGuard => 4
+  | .hasConn => 3
+  | .holding => 2
+  | _ => 1
+
+def dispRank (s : State) : Nat :=
+  match s.disp with
+  | none => 0
+  | some r => phaseRank (s.phase r)
+
+/-- bounds the number of system steps that can happen before the environment acts again -/
+def measure (s : State) : Nat := 7 * totalQueued s + dispRank s + s.ext
+
+theorem totalQueued_pop {s : State} {p : Prio} {r : Nat} {rest : List Nat} (h : s.q p = r :: rest) :
+    totalQueued (setQ s p rest) + 1 = totalQueued s := by
+  cases p <;> simp [totalQueued, setQ, h] <;> omega
+
+
+theorem bounds_step {cfg : Cfg} {s s' : State} (a : Action)
+    (ih : s.connsOut ≤ cfg.poolSize ∧ s.permitsOut ≤ cfg.permits)
+    (hs : step cfg s a = some s') :
+    s'.connsOut ≤ cfg.poolSize ∧ s'.permitsOut ≤ cfg.permits := by
+  have hdrop : ∀ r, (dropEffect s r).connsOut ≤ cfg.poolSize ∧ (dropEffect s r).permitsOut ≤ cfg.permits := by
+    intro r
+    simp only [dropEffect, setPhase]
+    constructor
+    · split <;> omega
+    · split <;> omega
+  cases a <;> simp only [step] at hs
+  case enqueue r p => split at hs <;> cases hs; simpa [setPhase, setQ] using ih
+  case dispatch p =>
+    split at hs
+    · split at hs
+      · cases hs
+      · split at hs <;> cases hs <;> simpa [setPhase, setQ] using ih
+    · cases hs
+  case wake =>
+    split at hs
+    · split at hs <;> cases hs; exact ih
+    · cases hs
+  case recvGuard r => split at hs <;> cases hs; simpa [setPhase] using ih
+  case takeConn r =>
+    split at hs <;> cases hs
+    rename_i h; simp only [setPhase]; omega
+  case takePermit r =>
+    split at hs <;> cases hs
+    rename_i h; simp only [setPhase]; omega
+  case release r => split at hs <;> cases hs; exact hdrop r
+  case cancel r => split at hs <;> cases hs; exact hdrop r
+  case timeout r => split at hs <;> cases hs; exact hdrop r
+  case extAcquire => split at hs <;> cases hs; simp only; omega
+  case extRelease => split at hs <;> cases hs; simp only; omega
+
+end Corro.WritePool
